@@ -24,7 +24,15 @@ def apply_pat(pat, name):
     return pat.replace("{0}", name, 1) if "{0}" in pat else pat
 
 
+KEYWORD_SYMBOLS = ["complex", "imaginary", "noreturn", "requires", "concept", "synchronized", "atomic_cancel", "atomic_commit", "atomic_noexcept", "char8_t",
+                   "reflexpr", "co_await_x", "final", "import", "module", "override", "transaction_safe", "in", "of", "var", "let", "function", "yield", "await", "with",
+                   "internal", "fun", "val", "object", "when", "open", "dynamic", "late", "required", "show", "hide", "covariant", "mixin", "get", "set", "None", "pass",
+                   "lambda", "def", "elif", "nonlocal", "is", "not", "and", "or", "del", "from", "global", "raise", "except", "print", "exec", "self", "cls"]
+
+
 def decorate(prog, rng, idx):
+    global KEYWORDISH
+    KEYWORDISH = [k for k in KEYWORD_SYMBOLS if k not in ("in", "self", "let", "yield", "await", "final", "override", "dyn", "fn", "as")]    # Rust's own keywords cannot be symbols via a string either way, keep clear of them
     """abi_rename at module / type / impl / method level in all 16 presence combinations (by idx), with and without {0};
     backend-conditional disable on methods and impls, rename on types and methods."""
     bits = idx % 16
@@ -54,6 +62,10 @@ def decorate(prog, rng, idx):
                 m.disable = None
                 if bits & 8 and rng.random() < 0.5:
                     m.abi_pat = rng.choice(["m_{0}", "{0}_m", "{0}", "full_%s_%s_%d" % (t.name, m.name, n)])
+                    if rng.random() < 0.25 and KEYWORDISH:
+                        # a full replacement that happens to be a word some target language reserves (an ordinary identifier for rustc and the
+                        # linker): the link symbol is not an identifier the backend may "escape" (seed C06-h)
+                        m.abi_pat = KEYWORDISH.pop(rng.randrange(len(KEYWORDISH)))
                     m.attrs.append('#[diplomat::abi_rename = "%s"]' % m.abi_pat)
                     n += 1
                 if m.name != "make" and t.impl_disable is None and rng.random() < 0.2:
